@@ -216,10 +216,35 @@ def gen_cases(tier, seed):
         cs.append(build_late_send(r, "ls%d" % i, "cs"[i % 2]))
     for i in range(8 if tier == "quick" else 60):
         cs.append(build_smuggle(r, "sm%d" % i, "cs"[i % 2]))
+    # streams opened CONCURRENTLY must get distinct ids (two streams with one id share a queue: the bytes of one land on the
+    # other): every interleaving of the first steps of two opens, on the scheduled driver of the write-path package (seed C02-3)
+    from . import c11 as _c11
+    for c in _c11.gen_cases(tier, seed):
+        if c.kind == "exhaustive-2tasks":
+            bits = c.args[c.args.index("sched") + 1:]
+            if tier == "quick" and any(b != "1" for b in bits[8:10]):
+                continue
+            cs.append(Case("ids_" + c.cid, c.drv, c.args, "concurrent-opens-" + c.kind, True))
     return cs
 
 
 def oracle(c, ir):
+    if c.drv == "conc":
+        from . import c11 as _c11
+        from .conc_common import parse_out
+        o = parse_out(ir)
+        if o is None:
+            return "unparsable implementation output: " + ir[:200]
+        for t, (pc, res) in o["tasks"].items():
+            if "stream-id-not-sequential" in res:
+                return "task %d's open_stream returned a stream whose id is not the next unused one: two concurrent opens shared an id (results %s)" % (t, res)
+        syns = [f.split(".")[1] for _, fr in o["bursts"] for f in fr if f.split(".")[0] == "1"]
+        if len(set(syns)) != len(syns):
+            return "two streams were opened with the same id: SYN ids on the wire %s" % syns
+        data_sids = {f.split(".")[1] for _, fr in o["bursts"] for f in fr if f.split(".")[0] == "2"}
+        if not data_sids <= set(syns):
+            return "data for stream(s) %s that were never opened" % sorted(data_sids - set(syns))
+        return None
     if c.drv != "ss":
         return "unknown driver"
     return G.ss_oracle(c, ir, tag_of=tag)
